@@ -270,6 +270,8 @@ var pipeShapes = []pshape{
 	16: {cs: []xclause{clSAO}, okinds: []int{2}, sel: []proj{pS, pO}, having: "?o > \"0\"^^type:int64", havingRef: func(r rrow) bool { return r["o"].i > 0 }, limit: -1, prop: "C13"},
 	17: {cs: []xclause{clSAO}, okinds: []int{0}, sel: []proj{pS, {binding: "o", op: "count", alias: "n"}}, groupBy: []string{"s"}, having: "?n > \"1\"^^type:int64", havingRef: func(r rrow) bool { return r["n"].i > 1 }, limit: -1, prop: "C13"},
 	18: {cs: []xclause{clSAO}, okinds: []int{0}, sel: []proj{pS, pO}, order: []ordKey{{"o", false}}, having: "not ?s = /u<b>", havingRef: func(r rrow) bool { return r["s"].b != 'b' }, limit: 1, prop: "C13"},
+	28: {cs: []xclause{clSIDO}, okinds: []int{0}, sel: []proj{pS, {binding: "i"}, pO}, having: "not ?i < \"b\"^^type:text", havingRef: func(r rrow) bool { return !(r["i"].b < 'b') }, limit: -1, prop: "C13"},
+	29: {cs: []xclause{clSAO}, okinds: []int{2}, sel: []proj{pS, pO}, having: "(?s = /u<a>) or not ?o > \"0\"^^type:int64", havingRef: func(r rrow) bool { return verif.Or(r["s"].b == 'a', !(r["o"].i > 0)) }, limit: -1, prop: "C13"},
 	// ---- C11: GROUP BY
 	19: {cs: []xclause{clSAO}, okinds: []int{0}, sel: []proj{pS, {binding: "o", op: "count", alias: "n"}}, groupBy: []string{"s"}, limit: -1, prop: "C11"},
 	20: {cs: []xclause{clSAO}, okinds: []int{0, 1}, sel: []proj{pS, {binding: "o", op: "count", distinct: true, alias: "n"}}, groupBy: []string{"s"}, limit: -1, prop: "C11"},
